@@ -525,6 +525,7 @@ Proof.
   - brk; (eapply G_adm; [|exact Hg]); adm_go.
   - match goal with |- context [state_stop ?a ?b] => destruct (state_stop a b) as [s1 next] eqn:E end.
     apply good_set_state. eapply G_adm; [|exact Hg]. eapply adm_state_stop; [exact E|]. adm_go.
+  - brk; try exact Hg; (eapply G_adm; [|exact Hg]); adm_go.
 Qed.
 
 Lemma good_step lb s e : lb <= s_tgt s -> G lb (step s e).
